@@ -31,6 +31,21 @@ CHECKS = {
    text="Lifecycle clauses of Reasm.tla (New/Complete exactly once, no data after completion, no pages / removable connections after FlushAll, page-limit bound, age-flush clauses) validated by TLC on traces of both real assemblers over the TLC-generated and random multi-connection scenarios, with read-only hook scalars logged after every API call.",
    design_ref="4/C11", technique="TLA+ property spec + TLC scenario enumeration + replay + TLC trace validation (hooks: read-only accessors)",
    note="Hook accessors (build tag verif) are trusted to report pageCache.used / pool size / queued pages faithfully."),
+ "C13": dict(
+   category="model_checking",
+   text="Defrag.tla states the property functionally (benign fragment sets: nothing, then exactly the datagram, once; any other set: nothing, an error, or a datagram whose every byte some fragment placed at that offset); DefragGen.tla enumerates every arrival sequence in the bound (all intervals x MF, duplicates, overlaps, a second key, discards) and checks an ideal defragmenter; every sequence is replayed on the real ip4defrag (IHL 5/6) and TLC validates each result with byte provenance; random benign datagrams up to 65515 bytes, boundary offsets, hostile sets and IPv6 permutations extend it.",
+   design_ref="4/C13", technique="TLA+ property spec + TLC scenario enumeration + replay + TLC trace validation",
+   note="Byte provenance is decoded from fragment content; IPv6 is checked for benign permutations only."),
+ "C16": dict(
+   category="model_checking",
+   text="PacketSource.tla models the background goroutine of PacketsCtx as a pc-machine (loop test, source read, select {send|ctx.Done}, sleep, deferred close) with consumer and canceller; TLC checks order / exactly-once / no loss across transient errors / close after EOF-class errors / at most one read after cancel and two liveness properties for all source scripts <= 4; every terminal behaviour is replayed as a harness schedule on the real PacketSource with a gated data source (8 option variants incl. zero-copy, Pool, NoCopy, concatenated sources, packets beyond the pool block size, the real 1000-slot channel) and TLC validates the observations.",
+   design_ref="4/C16", technique="TLA+ concurrent model (TLC safety+liveness) + schedule replay + TLC trace validation",
+   note="The select between send and ctx.Done() cannot be forced; both outcomes are accepted. Timeouts only produce no-op events."),
+ "C20": dict(
+   category="model_checking",
+   text="ReaderStream.tla models the assembler and consumer goroutines and their two rendezvous channels; TLC checks prefix-delivery, EOF placement, no send-on-closed panic and deadlock freedom for all delivery histories in the bound x read sizes x Close at every consumer step, and demonstrates that the un-repaired Close() shape deadlocks; every terminal behaviour is replayed with two real goroutines on the real ReaderStream (also behind a real Assembler) and TLC validates every Read result, loss reports and termination.",
+   design_ref="4/C20", technique="TLA+ concurrent model (TLC, deadlock check) + behaviour replay + TLC trace validation",
+   note="Real deadlock = both goroutines still blocked 2 s after the schedule ended."),
  "C18": dict(
    category="model_checking",
    text="SerializeBuffer.tla: TLC proves exhaustively (all op sequences to the bound) that the transcription of writer.go refines the abstract buffer; every exported behaviour is replayed on the real buffer and every real step is validated by TLC against the abstract layer (contents, returned-slice length, window position, layers).",
